@@ -52,7 +52,10 @@ func genC14(seed uint64, tier string, idx int) *Plan {
 		}
 	}
 	nx := 1 + g.r.intn(2)
-	ids := []uint16{0x0200, 0x0704, 0x0801, 0x0705}
+	if g.r.chance(25) {
+		nx = 3 + g.r.intn(5) // many message IDs pending at once: their re-requests fall due together
+	}
+	ids := []uint16{0x0200, 0x0704, 0x0801, 0x0705, 0x0800, 0x1005, 0x0900, 0x0102}
 	type open struct {
 		xi      int
 		missing []int
@@ -185,17 +188,24 @@ func checkC14(r *Result) []Violation {
 			}
 		}
 		open := map[uint16]*refXfer{} // by message ID
-		ri := 0
 		delivered := 0
 		completeOK := map[int]bool{} // transfer index -> may complete
-		// walk the deliveries: every chunk is exactly one frame in C14 plans ("inbound data")
-		for hi, e := range r.Hist {
+		// The model walks the deliveries (every chunk is exactly one frame in C14 plans, read by the server at
+		// the simulated instant it was delivered) and produces, per inbound frame, the group of re-requests that
+		// frame makes due. The reader hands them to the writer through a queue, so they appear on the socket in
+		// this order, possibly after later frames have been read; inside one group the order is not prescribed.
+		type want struct {
+			x       *refXfer
+			missing []uint16
+			at      int64
+			step    int
+		}
+		var groups [][]want
+		for _, e := range r.Hist {
 			if e.K != KDeliver || e.C != ci || e.Ref <= delivered {
 				continue
 			}
 			now := e.T
-			// this inbound data: first the frames it carries update the table (as the packets are parsed),
-			// then stale transfers expire and overdue ones are re-requested
 			for k := delivered; k < e.Ref && k < len(frames); k++ {
 				f := frames[k]
 				if f.Xfer <= 0 {
@@ -217,85 +227,88 @@ func checkC14(r *Result) []Violation {
 				}
 			}
 			delivered = e.Ref
-			// expected re-requests caused by this inbound data
-			var want []*refXfer
-			for _, x := range open {
+			var group []want
+			var ids []int
+			for id := range open {
+				ids = append(ids, int(id))
+			}
+			sort.Ints(ids)
+			for _, id := range ids {
+				x := open[uint16(id)]
 				if now-x.created > int64(expireAfter) {
 					x.expired = true
 					delete(open, x.id)
 					continue
 				}
 				if now-x.created == int64(expireAfter) || now-x.updated == int64(reissueAfter) {
-					// exact boundary: the property does not say which way it falls; generators avoid it
-					continue
+					continue // exact boundary: the property does not say which way it falls; generators avoid it
 				}
 				if now-x.updated > int64(reissueAfter) {
-					want = append(want, x)
-				}
-			}
-			// the writes that follow this delivery up to the next delivery on this connection
-			nextDeliver := 1 << 60
-			for _, e2 := range r.Hist[hi+1:] {
-				if e2.K == KDeliver && e2.C == ci {
-					nextDeliver = e2.Step
-					break
-				}
-			}
-			var got []req
-			for ri < len(reqs) && reqs[ri].ev.Step < nextDeliver {
-				got = append(got, reqs[ri])
-				ri++
-			}
-			sort.Slice(want, func(i, j int) bool { return want[i].id < want[j].id })
-			if len(got) != len(want) {
-				if len(got) > len(want) {
-					g0 := got[0]
-					bad("unexpected_8003", fmt.Sprintf("conn %d: %d re-request(s) after the inbound data at t=%s, %d due (first: serial=%d numbers=%v)", ci, len(got), time.Duration(now), len(want), g0.b.OrigSerial, g0.b.Nos), g0.ev.Step)
-				} else {
-					x := want[0]
-					bad("missing_8003", fmt.Sprintf("conn %d: transfer id=%#04x idle for %s (> 5 s) when inbound data arrived at t=%s, but %d of %d due re-requests were written", ci, x.id, time.Duration(now-x.updated), time.Duration(now), len(got), len(want)), e.Step)
-				}
-				return vs
-			}
-			// match each due transfer with one re-request (order across IDs is not prescribed)
-			used := make([]bool, len(got))
-			for _, x := range want {
-				var missing []uint16
-				for no := 1; no <= x.total; no++ {
-					if !x.got[uint16(no)] {
-						missing = append(missing, uint16(no))
+					var missing []uint16
+					for no := 1; no <= x.total; no++ {
+						if !x.got[uint16(no)] {
+							missing = append(missing, uint16(no))
+						}
 					}
+					group = append(group, want{x, missing, now, e.Step})
+					x.updated = now // at most once per 5 s
 				}
+			}
+			if len(group) > 0 {
+				groups = append(groups, group)
+			}
+		}
+		ri := 0
+		for _, group := range groups {
+			if ri+len(group) > len(reqs) {
+				if r.Outcome == 0 {
+					w := group[0]
+					bad("missing_8003", fmt.Sprintf("conn %d: transfer id=%#04x had been idle for more than 5 s when inbound data arrived at t=%s (step %d); %d re-request(s) fell due with that data, the server wrote only %d more", ci, w.x.id, time.Duration(w.at), w.step, len(group), len(reqs)-ri), w.step)
+					return vs
+				}
+				break
+			}
+			got := reqs[ri : ri+len(group)]
+			ri += len(group)
+			used := make([]bool, len(got))
+			for _, w := range group {
 				found := false
 				for gi, q := range got {
-					if used[gi] || q.b.OrigSerial != x.serial1 {
+					if used[gi] || q.b.OrigSerial != w.x.serial1 {
 						continue
 					}
 					used[gi] = true
 					found = true
-					if fmt.Sprint(q.b.Nos) != fmt.Sprint(missing) {
-						bad("wrong_missing_list", fmt.Sprintf("conn %d: re-request for id=%#04x names %v, missing are %v", ci, x.id, q.b.Nos, missing), q.ev.Step)
+					if q.ev.Step <= w.step {
+						bad("unexpected_8003", fmt.Sprintf("conn %d: re-request for id=%#04x written at step %d, before the inbound data that makes it due (step %d)", ci, w.x.id, q.ev.Step, w.step), q.ev.Step)
+						return vs
+					}
+					if fmt.Sprint(q.b.Nos) != fmt.Sprint(w.missing) {
+						bad("wrong_missing_list", fmt.Sprintf("conn %d: re-request for id=%#04x names %v, missing are %v", ci, w.x.id, q.b.Nos, w.missing), q.ev.Step)
 						return vs
 					}
 					break
 				}
 				if !found {
-					bad("wrong_original_serial", fmt.Sprintf("conn %d: no re-request names the first packet's serial %d of id=%#04x (got serials %v)", ci, x.serial1, x.id, func() []uint16 {
-						var s []uint16
-						for _, q := range got {
-							s = append(s, q.b.OrigSerial)
-						}
-						return s
-					}()), got[0].ev.Step)
+					var ss []uint16
+					for _, q := range got {
+						ss = append(ss, q.b.OrigSerial)
+					}
+					bad("unexpected_8003", fmt.Sprintf("conn %d: a re-request naming the first packet's serial %d of id=%#04x was due at t=%s; the server wrote re-requests with original serials %v (numbers %v) instead", ci, w.x.serial1, w.x.id, time.Duration(w.at), ss, got[0].b.Nos), got[0].ev.Step)
 					return vs
 				}
-				x.updated = now // at most once per 5 s
 			}
+		}
+		if ri < len(reqs) {
+			q := reqs[ri]
+			bad("unexpected_8003", fmt.Sprintf("conn %d: re-request (original serial %d, numbers %v) written at t=%s although no transfer was due for one (idle <= 5 s, or already re-requested within 5 s, or expired)", ci, q.b.OrigSerial, q.b.Nos, time.Duration(q.ev.T)), q.ev.Step)
+			return vs
 		}
 		// completion: exactly the transfers the model let complete are delivered; expired ones never
 		gotComplete := map[uint16]int{}
 		for _, e := range r.Hist {
-			if e.C == ci && e.K == KRead && e.Who == "eventer" && e.Complete {
+			// (a completed message of an ID without handler is reported through OnNotSupportedEvent)
+			if e.C == ci && (e.K == KRead || e.K == KNotSup) && e.Who == "eventer" && e.Complete {
 				gotComplete[e.ID]++
 			}
 		}
